@@ -31,8 +31,10 @@ def run(ctx):
                        "eps and min_branch_length are passed explicitly (their defaults are absolute numbers)",
                        "pairs where both calls are rejected are not judged (C35)"]
     q = ctx.quick
-    exact = [2.0 ** -10, 2.0, 2.0 ** 20]
-    other = [3.7, 1e-3, 1e6] if q else [3.7, 1e-3, 1e6, 1.0 / 3.0, 1e-6, 12345.678]
+    # 2^-40 and 1e-10: very small time units (added after seed C06-a, whose absolute 1e-8 tolerance only
+    # bites when times are below ~1e-7)
+    exact = [2.0 ** -10, 2.0, 2.0 ** 20, 2.0 ** -40]
+    other = [3.7, 1e-3, 1e6, 1e-10] if q else [3.7, 1e-3, 1e6, 1e-10, 1.0 / 3.0, 1e-6, 12345.678, 1e-12, 1e9]
     mc.scaling_run(ctx, PID, KIND, exact, other)
 
 
